@@ -71,6 +71,7 @@ def _common(draw, gaussian, ctx):
         # "any transverse polarization": the vector may have any length and be given for E or for H
         "pol_len": draw(st.sampled_from([1.0, 1.0, 5.0, 0.3, 2.5])),
         "pol_field": draw(st.sampled_from(["E", "E", "H"])),
+        "wave_phase": draw(st.sampled_from([0.0, 0.0, 1.0, 1.5707963, -2.0])),  # WaveCharacter.phase_shift of the source
         # the source's on/off schedule may be spelled explicitly (delayed start by a few steps, or an on-duration in
         # periods that outlasts the run): physically the same one-way source, but a different code path
         "switch": draw(st.sampled_from([{}, {}, {"start_step": 2}, {"start_step": 0}, {"on_for_steps": 100000, "periods": True}])),
@@ -230,7 +231,7 @@ def measure(ctx, case, gaussian):
         prof = {"kind": "pulse", "width_factor": wf}
     src = {"type": "gaussian_plane" if gaussian else "uniform_plane", "name": "src", "wl_cells": wl_vac, "amp": 1.0,
            "profile": prof, "switch": case.get("switch", {}), "axis": ax, "pos": spos, "direction": direction, "pol": pol,
-           "pol_len": case.get("pol_len", 1.0), "pol_field": case.get("pol_field", "E"),
+           "pol_len": case.get("pol_len", 1.0), "pol_field": case.get("pol_field", "E"), "wave_phase": case.get("wave_phase", 0.0),
            "lo": list(tlo), "hi": list(thi)}
     if gaussian:
         src["radius_cells"] = r_cells
